@@ -12,7 +12,8 @@ MOD = "sbml/_import.py"
 GENMOD = "meta/codegen_mxlpy.py"
 TOOLS = "meta/sympy_tools.py"
 LOSSY = ("stem", "name", "valid_filename", "lower", "sub", "normalize")
-INJECTIVE_SOURCES = ("file.resolve()", "file.absolute()", "file.read_bytes()", "file.read_text()")
+CONTENT_SOURCES = ("file.read_bytes()", "file.read_text()")
+PATH_SOURCES = ("file.resolve()", "file.absolute()")
 
 
 class C17(Check):
@@ -65,14 +66,19 @@ class C17(Check):
             return t
 
         full = expand(name_arg)
-        injective = any(k in full for k in INJECTIVE_SOURCES)
+        content = any(k in full for k in CONTENT_SOURCES)
+        path_only = any(k in full for k in PATH_SOURCES) and not content
+        injective = content
         cons = "module-key"
         if injective:
             self.holds("U1", MOD, "read", cons, calls[0], f"module name `{norm(name_arg)}` = {full[:140]} depends on the resolved path / content of the document")
         else:
             self.violated("U1", MOD, "read", cons, calls[0],
-                          f"module name `{norm(name_arg)}` = {full[:100]} depends only on lossy derivatives of the path (stem, normalised text): different documents share one generated module",
-                          witness="read('a/m.xml'); read('b/m.xml'): to_symbolic_model of the first model now sees (or fails on) the second document's functions")
+                          (f"module name `{norm(name_arg)}` = {full[:100]} depends on the document's path but not on its content: a document rewritten at the same path "
+                           "replaces the generated source of the model imported before" if path_only else
+                           f"module name `{norm(name_arg)}` = {full[:100]} depends only on lossy derivatives of the path (stem, normalised text): different documents share one generated module"),
+                          witness="write A to m.xml, read it; write B to m.xml, read it: source lookups for A's functions (export, symbolic model) now see B's functions"
+                          if path_only else "read('a/m.xml'); read('b/m.xml'): to_symbolic_model of the first model now sees (or fails on) the second document's functions")
         same = norm(cg[0].args[0]) == norm(name_arg)
         cgf = mod.func("_codegen")
         path_stmt = [s for s in walk_no_nested(cgf) if isinstance(s, ast.Assign) and norm(s.targets[0]) == "path"]
@@ -162,6 +168,7 @@ class C17(Check):
     def must_fire(self):
         return [
             Variant("reintroduce-stem-only", MOD, "read", "out_name = f'{valid_filename(file.stem)}_{digest}'", "out_name = valid_filename(file.stem)", expect="U1|", quick=True),
+            Variant("digest-of-path-only", MOD, "read", "hashlib.sha256(str(file.resolve()).encode() + b'\\x00' + file.read_bytes())", "hashlib.sha256(str(file.resolve()).encode())", expect="U1|", quick=True),
             Variant("digest-of-stem", MOD, "read", "hashlib.sha256(str(file.resolve()).encode() + b'\\x00' + file.read_bytes())", "hashlib.sha256(file.stem.encode())", expect="U1|", quick=True),
             Variant("args-from-other-expression", MOD, "_codegen", "sym.derived[key] = SymbolicFn(fn_name=key, expr=der, args=free_symbols(der))",
                     "sym.derived[key] = SymbolicFn(fn_name=key, expr=der, args=sorted(model.parameters))", expect="U2|", quick=True),
